@@ -37,6 +37,9 @@ checks = {
  "C20": dict(design="4/C20", engine="tlc-fsfault", technique="TLC model checking of FsFault.tla (file-system operations of a transaction with one injected failure and abandonment points; invariants NoLeak, Surfaced, NoSilentInspection) + replay of every case on the real library through the verif fault-injection hook; audit write failure against /dev/full",
    text="Every file-system operation of a transaction (spill create/copy/write/read, upload create/copy, removals and buffer close at Close) is an explicit step of FsFault.tla; TLC enumerates every single-fault position x abandonment point x keep-files mode x body placement and checks the leak and surfacing invariants; each case is replayed with the fault hook firing exactly at that operation, private temp and upload directories are listed afterwards and errors / error variables / error-level log entries collected; a probe transaction on the recycled object is compared with a fresh WAF.",
    note="Trusts TLC and the fault hook (it fails exactly the operation it precedes). Two simultaneous faults are not generated."),
+ "C19": dict(design="4/C19", engine="tlc-audit", technique="TLC enumeration of the Audit.tla decision table (record yes/no, listed rules, callback counts as TLA+ functions) replayed on the real library with a capturing audit writer and error callback + concurrent stress of the serial writer (JSON and native) with record-integrity parsing",
+   text="The audit policy is a decision table over (audit engine after ctl, relevant-status pattern, status source, rule engine mode, per-rule logging flags folded in order, disruptive or not, parts); Audit.tla defines the expected record / listed rules / callback multiset as functions and TLC enumerates the whole table; each case runs on the real library with a plugin audit writer and an error callback. Record integrity under concurrency is checked by parsing the serial log written by G goroutines with adversarial bytes.",
+   note="Trusts TLC and the capturing writer. RelevantOnly without a pattern is left open. The concurrency part samples schedules (Go scheduler), it does not enumerate them. Quick replays a third of the table (chosen by VERIF_SEED), thorough all of it."),
 }
 
 not_built_reason = "check under construction in this session (see DESIGN.md section 4); not claimed until its machinery is committed"
@@ -55,6 +58,7 @@ manifest = {
    {"name":"tlc-tx","path":"spec/Tx.tla, spec/Tx_MC.tla","serves_properties":["C02","C10","C18","C05","C20"],"kind_free_text":"TLA+ specification of the Transaction API and body buffers on top of Engine.tla; TLC explores all call sequences, every edge replayed on a real transaction"},
    {"name":"tlc-pool","path":"spec/Pool.tla","serves_properties":["C05"],"kind_free_text":"TLA+ model of transaction recycling"},
    {"name":"tlc-fsfault","path":"spec/FsFault.tla","serves_properties":["C20"],"kind_free_text":"TLA+ model of the file-system life of a transaction with fault injection"},
+   {"name":"tlc-audit","path":"spec/Audit.tla","serves_properties":["C19"],"kind_free_text":"TLA+ decision table of audit / error logging"},
    {"name":"tlc-engine","path":"spec/Engine.tla, spec/Scen.tla, spec/Engine_MC.tla, spec/Engine_Trace.tla","serves_properties":["C01","C04","C08","C09","C12","C17"],"kind_free_text":"TLA+ specification of the rule interpreter; TLC enumerates scenarios + allowed outcomes (spec->code replay) and validates recorded executions (code->spec)"},
  ],
  "checks": [],
